@@ -15,7 +15,6 @@ import (
 	"vh/opgen"
 	"vh/oracle"
 	"vh/plan"
-	"vh/proj"
 	"vh/refexec"
 	"vh/univ"
 	"vh/vfrun"
@@ -190,7 +189,7 @@ func check(c Case) *vfrun.Failure {
 
 func gen(t *rapid.T) Case {
 	var c Case
-	c.Project = rapid.SampledFrom(proj.Names()).Draw(t, "project")
+	c.Project = kit.DrawProject(t)
 	srvs, err := kit.Servers(c.Project)
 	if err != nil {
 		t.Fatalf("harness: %v", err)
